@@ -184,3 +184,41 @@ B('c12-clone-alias', 'C12', edits=[
 B('c12-copy-at-evaluation', 'C12', AST,
   "        value = self.value.eval(state)\n        state.names[self.name] = copy.deepcopy(value)",
   "        value = copy.deepcopy(self.value.eval(state))\n        state.names[self.name] = value")
+
+# =============================================================================== C17
+PARSE_STORE = "                self.parse_cache[expr] = ast\n"
+M('c17-key-stripped', 'C17', 'C17.R1', SQP, PARSE_STORE, "                self.parse_cache[expr.strip()] = ast\n")
+M('c17-lookup-stripped', 'C17', 'C17.R1', SQP,
+  "        if self.parse_cache is None or expr not in self.parse_cache:", "        if self.parse_cache is None or expr.strip() not in self.parse_cache:")
+M('c17-store-in-finally', 'C17', 'C17.R2', SQP,
+  "            self.yacc.parse(input=expr, lexer=self.lex)\n\n            ast = cast(Op, self.lex.ast)\n\n            if self.parse_cache is not None:\n                self.parse_cache[expr] = ast\n",
+  "            try:\n                self.yacc.parse(input=expr, lexer=self.lex)\n            finally:\n                ast = cast(Op, self.lex.ast)\n                if self.parse_cache is not None:\n                    self.parse_cache[expr] = ast\n")
+M('c17-miss-rereads-cache', 'C17', 'C17.R2', SQP,
+  "                self.parse_cache[expr] = ast\n\n            return ast",
+  "                self.parse_cache[expr] = ast\n                return self.parse_cache[expr]\n\n            return ast")
+M('c17-codeop-pops-lines', 'C17', 'C17.R4', AST,
+  "        for line in self.lines:\n            res = line.eval(state)",
+  "        while self.lines:\n            res = self.lines.pop(0).eval(state)")
+M('c17-callop-stores-on-self', 'C17', 'C17.R4', AST,
+  "        try:\n            f = state.names[self.name]\n        except LookupError:\n            raise ParserError(f'Undefined function {self.name}')",
+  "        self.last_args = args\n        try:\n            f = state.names[self.name]\n        except LookupError:\n            raise ParserError(f'Undefined function {self.name}')")
+M('c17-literal-owns-list', 'C17', 'C17.R5', RUL,
+  "    if len(p) == 3:\n        p[0] = CallOp(name='list', args=[])", "    if len(p) == 3:\n        p[0] = ValueOp([])")
+M('c17-eval-key-depends-on-cache', 'C17', 'C17.R1', SQP,
+  "        ast = self.parse(expr=expr.rstrip())", "        ast = self.parse(expr=expr.rstrip() if self.parse_cache is None else expr)")
+M('c17-placeholder-before-parse', 'C17', 'C17.R2', SQP,
+  "            self.lex.ast = None\n            self.yacc.parse(input=expr, lexer=self.lex)",
+  "            self.lex.ast = None\n            if self.parse_cache is not None:\n                self.parse_cache[expr] = None\n            self.yacc.parse(input=expr, lexer=self.lex)")
+M('c17-tree-touched-after-parse', 'C17', 'C17.R6', SQP,
+  "            ast = cast(Op, self.lex.ast)\n", "            ast = cast(Op, self.lex.ast)\n            self.lex.ast.lines.reverse()\n")
+M('c17-callop-hands-own-list', 'C17', 'C17.R4', AST,
+  "        return f(*args)", "        return f(*args) if args else f(self.args)")
+M('c17-hit-returns-other', 'C17', 'C17.R2', SQP, "            return self.parse_cache[expr]", "            return self.parse_cache[expr.strip()]")
+
+B('c17-local-alias', 'C17', edits=[
+  (SQP, "        if self.parse_cache is None or expr not in self.parse_cache:", "        cache = self.parse_cache\n        if cache is None or expr not in cache:"),
+  (SQP, "            if self.parse_cache is not None:\n                self.parse_cache[expr] = ast", "            if cache is not None:\n                cache[expr] = ast"),
+  (SQP, "            return self.parse_cache[expr]", "            return cache[expr]")])
+B('c17-get-idiom', 'C17', edits=[
+  (SQP, "        if self.parse_cache is None or expr not in self.parse_cache:\n", "        cached = self.parse_cache.get(expr) if self.parse_cache is not None else None\n        if cached is None:\n"),
+  (SQP, "            return self.parse_cache[expr]", "            return cached")])
